@@ -311,7 +311,7 @@ class ShortReads(object):
             return self.f.read()
         if self.tiny:
             return self.f.read(max(1, min(n, [1, 2, 3, 1, 1, 2][self.k % 6])))
-        return self.f.read(max(1, min(n, [7, 4096, n, 1000, 65535][self.k % 5])))
+        return self.f.read(max(1, min(n, [7, 4096, n, 1000, 65535, 1][self.k % 6])))
 
     def write(self, b):
         return self.f.write(b)
